@@ -82,6 +82,32 @@ def main():
         for e in agg['errors'][:3]:
             print('[%s] harness error: %s' % (prop, json.dumps(e, default=repr)[-1500:]))
 
+    # anchor fingerprints: the model was last validated against other source text -> validate it harder (not a violation by itself)
+    changed_rel, changed_all = [], []
+    try:
+        from harness import anchors
+        files = []
+        for l in open(os.path.join(core.VERIF, 'properties.jsonl')):
+            d = json.loads(l)
+            if d['id'] == prop:
+                files = d['anchors'].get('files', [])
+        changed_rel, changed_all = anchors.changed_for(files)
+    except Exception as e:
+        print('[%s] anchor fingerprints not available: %r' % (prop, e))
+    if changed_rel:
+        print('[%s] anchored source differs from the fingerprints the model was validated against: %s' % (prop, ', '.join(changed_rel)))
+    if (changed_rel and a.tier == 'quick' and not agg['mismatches'] and not agg['errors']
+            and not [h for h in agg['hits'] if h['hit']['signature'] not in known_sigs] and not os.environ.get('VERIF_NODEEP')):
+        deep = core.run_campaign(prop, 'thorough', seed + 7, 'deep')
+        print('[%s] deeper campaign because of the changed source: %d cases, %d mismatches, %d monitor hits' % (
+            prop, deep['evaluations'], len(deep['mismatches']), len(deep['hits'])))
+        agg['evaluations'] += deep['evaluations']
+        agg['keys'].update(deep['keys'])
+        for t, c in deep['tags'].items():
+            agg['tags'][t] = agg['tags'].get(t, 0) + c
+        for f in ('mismatches', 'hits', 'errors'):
+            agg[f].extend(deep[f])
+
     new_hits = [h for h in agg['hits'] if h['hit']['signature'] not in known_sigs]
     known_hits = {}
     for h in agg['hits']:
@@ -167,6 +193,8 @@ def main():
     extra = getattr(mod, 'evidence_extra', lambda agg: {})(agg)
     if searched is not None:
         extra['search_evaluations'] = searched['evaluations']
+    extra['anchored_source_changed'] = changed_rel
+    extra['source_changed_elsewhere'] = [m for m in changed_all if m not in changed_rel]
     core.write_evidence(prop, a.tier, seed, proof, agg, time.time() - t0, violations, extra=extra,
                         rule=getattr(mod, 'RULE', ''), known_printed=printed)
     print('[%s] %s in %.1fs' % (prop, 'PASS' if exit_code == 0 else 'FAIL', time.time() - t0))
